@@ -105,8 +105,14 @@ def run_session(sess, pool, directory):
     orig_run = opt._run_optimizer
     orig_maybe = opt._maybe_run_optimizer
 
+    failed = []
+
     def run_wrap(inputs, output, size_dict):
-        con = orig_run(inputs, output, size_dict)
+        try:
+            con = orig_run(inputs, output, size_dict)
+        except BaseException as e:      # the sub-optimizer itself failed: not this property's subject
+            failed.append(repr(e)[:200])
+            raise
         searches.append((con, pickle.dumps(con)))
         return con
 
@@ -127,6 +133,7 @@ def run_session(sess, pool, directory):
         nb = len(searches)
         del _CAP[:]
         del maybe_log[:]
+        del failed[:]
         rec = {"q": qi, "split_used": opt.directory_split}
         with warnings.catch_warnings(record=True) as w:
             warnings.simplefilter("always")
@@ -139,6 +146,7 @@ def run_session(sess, pool, directory):
             except Exception as e:
                 rec["raise"] = (type(e).__name__, str(e)[:200])
         rec["maybe"] = maybe_log[0] if maybe_log else None
+        rec["subopt_failed"] = failed[0] if failed else None
         rec["new"] = searches[nb:]
         rec["nsearch"] = len(searches)
         rec["pre"] = _CAP[0] if _CAP else None
@@ -551,9 +559,9 @@ def run(ctx):
     hists = [gen_history(rng, ctx.quick) for _ in range(nh)]
     # the two collisions of hash_method='b' as fixed histories (known finding probe, always run)
     probes = [
-        {"dir": False, "tags": ["b_scalar_count"], "pool": [([("a", "b"), ("a", "b"), ()], (), {"a": 2, "b": 3}),
+        {"dir": False, "tags": ["b_scalar_count", "b_scalar_count"], "pool": [([("a", "b"), ("a", "b"), ()], (), {"a": 2, "b": 3}),
                                                            ([("a", "b"), ("a", "b")], (), {"a": 2, "b": 3})]},
-        {"dir": True, "tags": ["b_label_sizes"], "pool": [([("a",), ("a", "b"), ("b",)], (), {"a": 2, "b": 7}),
+        {"dir": True, "tags": ["b_label_sizes", "b_label_sizes"], "pool": [([("a",), ("a", "b"), ("b",)], (), {"a": 2, "b": 7}),
                                                          ([("b",), ("b", "a"), ("a",)], (), {"a": 2, "b": 7})]},
     ]
     for p in probes:
@@ -578,6 +586,7 @@ def run(ctx):
         last_path = {}        # (digest) -> stored path after the last successful call
         last_score = {}
         nontriv = False
+        subfail = False
         for si, (sess, sr) in enumerate(zip(hist["sessions"], real)):
             prev_ns = 0
             ctx.count("session_overwrite_%s" % sess["overwrite"])
@@ -599,6 +608,10 @@ def run(ctx):
                 dg = (rec["digest"], bool(rec["split_used"]))      # the entry: digest in this layout
                 searched_now = rec["nsearch"] - prev_ns
                 prev_ns = rec["nsearch"]
+                if rec["subopt_failed"]:
+                    ctx.count("suboptimizer_itself_failed")
+                    subfail = True
+                    continue
                 rep = {"history": desc, "session": si, "query": q, "tag": tag, "record": {
                     k: rec.get(k) for k in ("maybe", "raise", "stored", "digest", "nsearch", "path")},
                     "tree": rec.get("tree")}
@@ -666,6 +679,9 @@ def run(ctx):
         ctx.case((hi, repr(hist["pool"]), repr(hist["sessions"])), nontrivial=nontriv,
                  sample=desc if hi in (2, 3) else None)
         # ---------------- model cases ----------------------------------------------------
+        if subfail:
+            ctx.count("history_not_replayed_suboptimizer_failure")
+            continue
         try:
             bc = build_history_case(hist, real)
         except Exception as e:
